@@ -558,6 +558,54 @@ def do_replay(chk, path):
     return 1 if bad_all else 0
 
 
+def both_directions(chk):
+    """the same object lent in both directions between two ends in one process, class queries in between (the history in which
+    a release notice for a reference never handed out was found): every proxy must stay usable"""
+    import rpyc
+    from harness.pair import Pair
+    for kind in ("list", "user"):
+        X = [1, 2, 3] if kind == "list" else Obj("x")
+        kept = []
+
+        class B(rpyc.Service):
+            def exposed_get(self):
+                return X
+
+            def exposed_take(self, q):
+                kept.append(q)
+
+            def exposed_classes(self):
+                return (dict, Obj, int)
+
+            def exposed_use(self):
+                return kept[0].ping() if kind == "user" else len(kept[0])
+        p = Pair(rpyc.VoidService(), B(), config_a={"allow_public_attrs": True}, config_b={"allow_public_attrs": True}, patch_time=False)
+        try:
+            a = p.a
+            root = a.call(lambda: a.conn.root)
+            P = a.call(lambda: root.get())
+            a.call(lambda: root.take(X))
+            classes = a.call(lambda: root.classes())
+            before = a.call(lambda: root.use())
+            for c in classes:
+                a.call(lambda: isinstance(P, c))
+                p.settle()
+                chk.evaluated()
+                try:
+                    after = a.call(lambda: root.use())
+                except Exception as ex:  # noqa
+                    after = ex
+                if after != before:
+                    chk.violation("released-early:instancecheck", "C10 an object lent in both directions (%s): after isinstance(proxy, "
+                                  "remote class) the owner no longer holds it although the peer still has its proxy: use gives %r" % (
+                                      kind, after), {"mode": "both-directions", "kind": kind})
+                    break
+            else:
+                chk.validated()
+        finally:
+            p.close()
+
+
 def main():
     chk = Check(PID)
     gc.disable()
@@ -600,6 +648,11 @@ def main():
             gc.collect()
     validate(chk, keys, traces)
     validate(chk, keys, ftraces, fresh=True)
+    # executions nobody scheduled: the reference traffic of every connection of the repository's own tests, owner's end
+    from harness import suite_traces
+    chans, summary, files = suite_traces.record(suite_traces.ALL_FILES)
+    suite_traces.validate_refs(chk, PID, chans, "%d test files: %s" % (len(files), summary))
+    both_directions(chk)
     chk.assumptions += [
         "CPython reference counting runs proxy finalizers at the moment the last handle is dropped (automatic GC is off)",
         "frames are delivered whole and in order per direction; the harness chooses when each direction advances",
